@@ -28,7 +28,7 @@ WEIGHTS = dict(macro=3, call=6, ins=3, data=5, label=3, block=1.5, scope=0.6, as
 
 
 def plan(tier: str, seed: int) -> list[dict]:
-    n, per = (16, 70) if tier == "quick" else (64, 480)
+    n, per = (32, 100) if tier == "quick" else (64, 480)
     return [{"seed": seed * 100_000 + i, "n": per} for i in range(n)]
 
 
